@@ -142,6 +142,11 @@ def main_wrapper(fn, prop, argv=None):
     except Machinery as e:
         print("MACHINERY-FAILURE property=%s: %s" % (prop, e))
         rc = 2
+    except BaseException as e:  # noqa: BLE001
+        if type(e).__name__ != "Unmodelled":
+            raise
+        print("MACHINERY-FAILURE property=%s: the tree asks the simulated kernel for %s, which it does not model" % (prop, e))
+        rc = 2
     finally:
         forkpool.shutdown()
     sys.exit(rc)
